@@ -19,6 +19,22 @@ META = {
 
 _B = "bounded run-time contracts on the real entry points (labelled stand-in, never counted as proved)"
 META.update({
+    "C03": dict(
+        technique="contract-based deductive verification of strip_unchanged / mark_unchanged (AST->VC with ADT lists, z3) + idempotence lemma; " + _B + " for the diff construction and the text renderings",
+        text="exploration + proved links: strip_unchanged and mark_unchanged are proved equal to their specs for every diff (any length, any depth); "
+             "strip is idempotent (lemma). Reconstruction (proj_old/proj_new), exact ops, self-diff empty, MOVED, formatter.diff and "
+             "gen_pre_as_diff read-back: bounded layer over 7 real compiled rulebooks x all pairs of small trees (depth<=2/3) x 14 vendor "
+             "formatters. 4 known findings (MOVED by index, old order of MOVED rows, unchanged %rewrite groups absent).",
+        note="base_diff, call_diff_logic, apply_diff_rb, make_diff not under discharged contracts",
+    ),
+    "C04": dict(
+        technique="contract-based deductive verification of the indentation parse chain (shared with C05); " + _B + " for every vendor's join/split round trip",
+        text="exploration + proved links: the parse side of the indentation family (_parse_indent .. _stacked) is proved (C05). Round trip "
+             "parse(join(t)) == t and fixed point for all 14 vendors: bounded layer, every ordered tree shape with depth<=3, <=3 rows per level "
+             "and <=11 nodes (quick; thorough depth<=5, 22 nodes, random to 40) under 3 labellings + vendor keyword rows. 4 known findings "
+             "(RouterOS nested sections).",
+        note="join side and vendor-specific split functions bounded only",
+    ),
     "C06": dict(
         technique="contract-based deductive verification of apply_acl / apply_acl_diff (AST->VC, loop invariants, z3+cvc5) relative to an assumed contract of the matcher; lemmas over the spec functions; " + _B,
         text="exploration + proved links: apply_acl is proved equal to spec_filter for every tree and rule set (order-preserving, children by the "
@@ -73,10 +89,12 @@ META.update({
         note="bounded stand-in only",
     ),
     "C15": dict(
-        technique=_B + "; no deductive obligations yet (mergers are small enough for contracts but not done)",
-        text="exploration: mirrored peers/AS/families/interfaces for 30-34 topologies x rule templates x handler specs, all registration orders; "
+        technique="contract-based deductive verification of the field mergers (Merger.__call__, UseFirst/UseLast/Forbid/ForbidChange/Concat/Unite/DictMerge._merge; AST->VC, z3+cvc5); " + _B + " for mirrored sessions",
+        text="exploration + proved links: every merger class is proved against its law (unset never overrides set; ForbidChange returns x iff x == y "
+             "else raises; Concat = x + y; Unite = x | y; DictMerge key-wise with the value merger, x unmodified), plus commutativity/"
+             "associativity lemmas. Bounded: mirrored peers/AS/families/interfaces for 30-34 topologies x rule templates x handler specs, all registration orders; "
              "merge laws per declared merger on seeded model instances (order independence, associativity, unset never overrides).",
-        note="bounded stand-in only",
+        note="registry lookup, executor and to_bgp_peer are bounded only",
     ),
     "C19": dict(
         technique="contract-based deductive verification of RunGeneratorResult.add_entire / new_files (AST->VC, z3) + induction lemmas (fold of add_entire dominates every listed result); " + _B + " for upload/reload/diff",
@@ -100,7 +118,7 @@ _PENDING = "check not built yet in this round (planned in DESIGN.md section 5); 
 NOT_APPLICABLE = {
     "C12": "schedules / fault sequences of an OS process pool (multiprocessing queues, worker exit codes): no contract on a call or a data structure expresses it and no verifier here models multiprocessing; a proof would be about a hand-written model, which is a different family (DESIGN.md section 5, C12)",
 }
-for _p in ["C01", "C02", "C03", "C04", "C11", "C16", "C17"]:
+for _p in ["C01", "C02", "C11", "C16", "C17"]:
     NOT_APPLICABLE.setdefault(_p, _PENDING)
 NOTES = ("Exit codes of every check: 0 held, 1 VIOLATION, 2 undecided, 3 checker broken. Level 'proof' is claimed only where every "
          "clause is covered by discharged obligations; everything bounded is labelled and never added to obligations/discharged.")
